@@ -8,7 +8,7 @@
    hardware differential run only (listed as unproved_forms in the evidence). *)
 From Coq Require Import ZArith Bool List.
 From AxV Require Import Bits Outcome Codes Iced State Rt Mem Trace Exec ExecP FrameTac FrameP RegFile RegsP ISA CodeSem IsaP OperandP MovP ByteStore RmP AluRmP Alu32P AluImmP AluImm32P MovxP SimpleP MovImmP SetccP Alu16P Alu8P AluImm16P AluImm8P MovImm16P MovImm8P MovStore32P MovStore16P MovStore8P DivP StoreP Misc16P XmmP Examples.
-From AxG Require Import Flags Regs Operand Helpers Dispatch Frame I_lea I_mov I_div I_idiv I_cmovae I_cmove I_cmovne I_movsxd I_movzx I_cdqe I_cqo I_cdq I_cld I_nop I_endbr64 I_setb I_sete I_setne I_cwd I_xorps I_movups I_movd.
+From AxG Require Import Flags Regs Operand Helpers Dispatch Frame I_lea I_mov I_div I_idiv I_cmovae I_cmove I_cmovne I_movsxd I_movzx I_cdqe I_cqo I_cdq I_cld I_nop I_endbr64 I_setb I_sete I_setne I_cwd I_xorps I_movups I_movd I_cpuid.
 Local Open Scope Z_scope.
 
 (* apart from registers, flags, memory contents, FS/GS, the trace and the call stack,
@@ -244,6 +244,11 @@ Theorem C01_mov_rm8_r8 : forall c i s,
   end.
 Proof. exact mov_rm8_r8_exact. Qed.
 
+(* CPUID: model-specific outputs; the emulator reports zeros in EAX..EDX (zero-extended) and changes nothing else *)
+Theorem C01_cpuid : forall c i s, i_code i = C_Cpuid ->
+  instr_cpuid c i s = (Ok tt, write_reg (write_reg (write_reg (write_reg s EAX 0) EBX 0) ECX 0) EDX 0).
+Proof. exact cpuid_exact. Qed.
+
 (* CWD; LEA r16, m; MOVZX r16, r/m8 - 16-bit destinations keep the upper 48 bits *)
 Theorem C01_cwd : forall c i s, wf_regs s -> i_code i = C_Cwd ->
   exists s', isa_exec (SCwd 16) i s = IDone s' 0 /\ instr_cwd c i s = (Ok tt, s').
@@ -450,3 +455,4 @@ Print Assumptions C01_mov_acc_moffs.
 Print Assumptions C01_mov_moffs_acc_32_16_8.
 Print Assumptions C01_mov_moffs64_rax.
 Print Assumptions C01_xmm.
+Print Assumptions C01_cpuid.
